@@ -165,6 +165,26 @@ func (c *Ctx) RunC06(tier string) {
 	}
 	rep.Bound += "; under ICWS'88 every opcode (17) x modifier {none,.i,.f} x A-mode (absent or 8) x B operand (absent, mode absent or 8), alone and inside a 3-line program"
 
+	// 4b. EQU bodies that carry an addressing-mode character: whatever the assembler makes of
+	// them, an accepted result must be legal in the dialect
+	for _, dialect := range []g.SimulatorMode{g.ICWS88, g.ICWS94} {
+		cfg := cfgM(8000, dialect)
+		for _, op := range ref.OpList {
+			if !c.mine() {
+				continue
+			}
+			for _, md := range ref.ModeList {
+				for _, other := range []string{"", "#", "$", "@", "<"} {
+					c.check06("v equ "+md+"3\n"+op+" v, "+other+"1\n", cfg)
+					c.check06("v equ "+md+"3\n"+op+" "+other+"1, v\n", cfg)
+					c.check06("v equ "+md+"3\nw equ v\n"+op+" w\n", cfg)
+					c.check06("v equ "+md+" 3 , "+other+"4\n"+op+" v\n", cfg)
+				}
+			}
+		}
+	}
+	rep.Bound += "; EQU bodies beginning with each of the 8 mode characters (also chained, also carrying a comma and a second operand) used as A or B operand of every opcode, both dialects"
+
 	// 5. fields: huge and negative literals must come out reduced
 	for _, M := range []uint64{7, 80, 8000, 8192} {
 		if !c.mine() {
